@@ -396,6 +396,8 @@ def execute(doc):
         _exec_setorder(doc, res)
     elif kind == 'hashseed':
         _exec_hashseed(doc, res)
+    elif kind == 'hashtable':
+        _exec_hashtable(doc, res)
     elif kind == 'enchistory':
         _exec_enchistory(doc, res)
     else:
@@ -481,7 +483,14 @@ def _exec_history(doc, res):  # pylint: disable=too-many-branches,too-many-state
             except Exception:  # the edited value is not accepted by the constructor  # pylint: disable=broad-except
                 continue
             if canon(fresh) != canon(obj):
-                continue
+                # the library's own equality decides (instance attributes outside the declared fields, such as
+                # memoised results, are not part of it)
+                try:
+                    equal = type(obj).__eq__ is not object.__eq__ and bool(fresh == obj) and bool(obj == fresh)
+                except Exception:  # pylint: disable=broad-except
+                    equal = False
+                if not equal:
+                    continue
             res.stats['probe.edited_object_vs_fresh_equal_object'] += 1
             out_edited, out_fresh = serialise(obj), serialise(fresh)
             res.event('edited', idx, name, edited, _digest(out_fresh))
@@ -792,6 +801,33 @@ def _spawn(hash_seed, args):
     return proc.stdout.decode()
 
 
+def _exec_hashtable(doc, res):
+    """Replayable form of a difference that only shows inside the whole table: all hash subjects are serialised
+    one after the other in a fresh interpreter per hash seed, a few times over; all tables must be identical."""
+    tables = []
+    for _ in range(int(doc.get('tries', 3))):
+        for seed in doc['seeds'][:2]:
+            text = _spawn(seed, ['--aux', 'hash-table'])
+            line = [l for l in text.splitlines() if l.startswith('HASH-TABLE ')][-1]
+            tables.append((seed, json.loads(line[len('HASH-TABLE '):])))
+            res.stats['fault.fresh_interpreter_other_hash_seed'] += 1
+            differing = sorted(int(key) for key in tables[0][1] if tables[-1][1].get(key) != tables[0][1].get(key))
+            if differing:
+                subjects = hash_subjects()
+                names = [str(subjects[i][1]).rsplit('.', 1)[-1] for i in differing[:4] if i < len(subjects)]
+                res.violation((PROPERTY, 'depends-on-earlier-serialisation', 'hash-table'),
+                              'output is independent of which objects were serialised before and of the hash seed',
+                              'fresh interpreters that serialise the same %d subjects in the same order produce '
+                              'different output for subjects %s (%s) (hash seeds %s and %s), although each of them '
+                              'alone serialises identically under both seeds' % (
+                                  len(tables[0][1]), differing[:4], ', '.join(names), tables[0][0], seed))
+                break
+        if res.violations:
+            break
+    res.sched_sig = ('hashtable', len(tables))
+    res.nontrivial = True
+
+
 def _exec_hashseed(doc, res):
     """Replayable form: one subject under the listed hash seeds, each in a fresh interpreter."""
     outs = []
@@ -845,7 +881,16 @@ def hash_phase(tier, seed):
                 batch.viol.setdefault(v['sig'], {'sig': v['sig'], 'clause': v['clause'], 'detail': v['detail'],
                                                  'index': idx, 'run_seed': core.run_seed(seed, PROPERTY, idx), 'doc': doc})
             if not result.violations:
-                raise core.HarnessError('hash tables differ for %r but the single-subject replay agrees' % (spec, ))
+                # alone the subject agrees under both seeds: what differs depends on the subjects serialised before
+                doc = {'kind': 'hashtable', 'index': idx, 'subject': spec, 'seeds': [seeds[0], differing[0]]}
+                result = core.guarded_execute(me, doc)
+                for v in result.violations:
+                    batch.viol_count[v['sig']] += 1
+                    batch.viol.setdefault(v['sig'], {'sig': v['sig'], 'clause': v['clause'], 'detail': v['detail'],
+                                                     'index': idx, 'run_seed': core.run_seed(seed, PROPERTY, idx), 'doc': doc})
+                if not result.violations:
+                    raise core.HarnessError('hash tables differ for %r but neither the single-subject nor the '
+                                            'whole-table replay reproduces it' % (spec, ))
     batch.samples.append({'index': 0, 'schedule': {'kind': 'hashseed', 'subject': subjects[0], 'seeds': list(seeds)},
                           'signature': 'hashseed'})
     batch.digests.append(int(hashlib.sha256(json.dumps(reference, sort_keys=True).encode()).hexdigest(), 16))
@@ -874,11 +919,12 @@ def check(tier, seed):
     began = time.time()
     me = __import__('simverif.props.c14', fromlist=['x'])
     extra = prepare(tier)
+    histories = core.history_batch(me, seed, tier, extra)      # first: this process has executed no run yet
     core.determinism_selftest(me, seed, tier, extra, count=40)
     hashed = hash_phase(tier, seed)
     n_runs, wall = BUDGET[tier]
     explore = core.run_batch(me, seed, tier, n_runs, wall, extra)
-    batch = core.merge_batches([hashed, explore])
+    batch = core.merge_batches([hashed, explore, histories])
     coverage = core.coverage_from_batch(
         batch, RULE,
         fault_kinds=('fresh_interpreter_other_hash_seed', 'insertion_order_permuted', 'encoder_switched_between_passes'),
